@@ -42,6 +42,8 @@ def run(tier, seed):
     # the binomial-coefficient iterator shared by add and merge of every order: extracted and verified by Verus for EVERY n
     import verus_units
     obs += guarded("C02.engine.verus_units.iterbinomial_obligations@L43", lambda: verus_units.iterbinomial_obligations("C02"))
+    import rs_crosscheck
+    obs += guarded("C02.engine.rs_crosscheck", lambda: rs_crosscheck.crosscheck("C02", ['Mean', 'Variance', 'Skewness', 'Kurtosis', 'Moments6']))
     meta = {
         "level": "proof",
         "checker_cmd": "./check C02 (rsx -> RS executor -> sympy normal form / z3 QF_NRA; verus history.rs)",
